@@ -401,6 +401,17 @@ def bounded(tier, seed):
                         break
             if bad:
                 violations.append(dict(key='raw pipelined %d requests' % n, observed=bad, required='one reply per request, in order, same sender context and session, service | 0x80 in null-address + data item'))
+    # long pipelines: many requests written in one piece whose total length fills the receive buffer exactly: one reply each, nothing more is sent
+    from . import C02
+    for total in (4096, 8192) if tier == 'quick' else (4096, 8192, 12288, 4094, 4098):
+        r = C02.burst_case({'A': ('INT', 8), 'B': ('DINT', 4)}, total)
+        if r is None:
+            continue
+        ev += 1
+        distinct.add(('burst', total))
+        if r[2] != r[1]:
+            violations.append(dict(key='%d request frames written in one piece of %d bytes, then silence' % (r[1], r[0]), observed='%d reply frames within 3 s' % r[2],
+                                   required='exactly one reply per request (%d)' % r[1]))
     # (c) session-level commands: each gets exactly one reply frame with the same command; Unregister gets none and ends the session
     from . import wire, netsim
     import socket
